@@ -87,7 +87,7 @@ struct Call
 
 std::string expected_text(int producer, int opidx, const Op &op)
 {
-    std::string t = "m" + std::to_string(producer) + "." + std::to_string(opidx) + " " + op.s;
+    std::string t = ((op.c >> 16) & 4) ? op.s : "m" + std::to_string(producer) + "." + std::to_string(opidx) + " " + op.s;
     if (op.e > 0) {
         t += ' ';
         std::string pad(op.e, 'p');
@@ -400,8 +400,8 @@ Verdict judge(const Plan &plan, const sim::Shm *shm, const ChildExit &ex, const 
         int xtype = op.kind == "fatal" ? 3 : op.a;
         if (ec.type != xtype)
             why << " type " << ec.type << "!=" << xtype;
-        if (ec.line != op.d)
-            why << " line " << ec.line << "!=" << op.d;
+        if (ec.line != c.cid + 1)
+            why << " line " << ec.line << "!=" << (c.cid + 1);
         if (ec.message != c.text)
             why << " text '" << clip(ec.message, 60) << "'!='" << clip(c.text, 60) << "'";
         if (ec.file != (xfile ? xfile : ""))
@@ -473,7 +473,7 @@ Verdict judge(const Plan &plan, const sim::Shm *shm, const ChildExit &ex, const 
         Msg m;
         m.cid = c.cid;
         m.type = c.op->kind == "fatal" ? 3 : c.op->a;
-        m.line = c.op->d;
+        m.line = c.cid + 1;
         const char *xfile = kFiles[(c.op->c & 0xff) % kNumFiles];
         const char *xfunc = kFunctions[((c.op->c >> 8) & 0xff) % kNumFunctions];
         m.file = xfile ? xfile : "";
